@@ -132,17 +132,25 @@ func (c *Ctx) loopWrites(fr *Frame, li *loopInfo) (cells map[interface{}]bool, f
 					cells["visited:"+rg.Name()] = true
 				}
 			case *ssa.Send:
-				whole[chLen] = true
-				whole[chVal] = true
-			case *ssa.UnOp:
-				if x.Op == token.ARROW {
+				if c.chanMode(fr, x.Chan) != "" {
 					whole[chLen] = true
 					whole[chVal] = true
+				}
+			case *ssa.UnOp:
+				if x.Op == token.ARROW {
+					if c.chanMode(fr, x.X) != "" {
+						whole[chLen] = true
+						whole[chVal] = true
+					}
 					whole[ctxDoneKey] = true
 				}
 			case *ssa.Select:
-				whole[chLen] = true
-				whole[chVal] = true
+				for _, sst := range x.States {
+					if c.chanMode(fr, sst.Chan) != "" {
+						whole[chLen] = true
+						whole[chVal] = true
+					}
+				}
 				whole[ctxDoneKey] = true
 			case ssa.CallInstruction:
 				cc := x.Common()
@@ -328,6 +336,12 @@ func (c *Ctx) enterLoopHead(st *State, fr *Frame, li *loopInfo, pred *ssa.BasicB
 		for _, key := range sortedStrKeys(fields) {
 			bases := fields[key]
 			info := c.V.heapKeys[key]
+			switch key {
+			case chLen, chVal:
+				info = heapKeyInfo{Sort: SInt}
+			case chClosed:
+				info = heapKeyInfo{Sort: SBool}
+			}
 			precise := !whole[key]
 			for _, b := range bases {
 				if !stableBase(li, cells, b.V) {
@@ -560,6 +574,55 @@ func (c *Ctx) preciseCallWrites(fr *Frame, cc *ssa.CallCommon, fields map[string
 			switch e.Fn {
 			case "alloc":
 				wholeKeys = append(wholeKeys, aliveKey)
+			case "chans":
+				wholeKeys = append(wholeKeys, chLen, chVal, chClosed)
+			case "chan":
+				// chan(x.f.g): typestate of the channel held in that field
+				var names []string
+				cur := e.Args[0]
+				for {
+					if f, ok := cur.(EField); ok {
+						names = append([]string{f.Name}, names...)
+						cur = f.X
+						continue
+					}
+					break
+				}
+				id, ok := cur.(EIdent)
+				if !ok {
+					return false
+				}
+				a := argByName(id.Name)
+				var t types.Type
+				if a == nil {
+					key, kt, ok := c.V.cellByName(fr.fn, id.Name)
+					if !ok {
+						return false
+					}
+					switch k := key.(type) {
+					case *ssa.Alloc:
+						a = k
+					case *ssa.FreeVar:
+						a = k
+					default:
+						return false
+					}
+					t = kt
+				} else {
+					t = a.Type()
+				}
+				var path []fieldInfo
+				for _, n := range names {
+					fis, ok := c.resolveFieldChain(t, n)
+					if !ok {
+						return false
+					}
+					path = append(path, fis...)
+					t = fis[len(fis)-1].GoT
+				}
+				for _, k := range []string{chLen, chVal, chClosed} {
+					out = append(out, pend{k, baseRef{V: a, Path: path}})
+				}
 			case "object":
 				id, ok := e.Args[0].(EIdent)
 				if !ok {
